@@ -8,9 +8,9 @@ cd /verif
 checks_for() {
   case $1 in
     asce_*) echo "C06 C09 C10 C11 C13 C14";;
-    dimse_*) echo "C06 C08 C10";;
+    dimse_*) echo "C06 C07 C08 C10 C15 C16";;
     dul_*) echo "C03 C05 C12 C13";;
-    fsm_*) echo "C04 C05 C07 C12 C13";;
+    fsm_*) echo "C03 C04 C05 C07 C12 C13 C14";;
     sop_*) echo "C15 C16 C17 C19";;
     ae_*) echo "C07 C09 C11";;
     *) echo "";;
